@@ -298,14 +298,14 @@ SETUP = ("create table a(id integer, x integer, y integer, z integer); insert in
          "create table b(id integer, w integer); insert into b values (1,10),(2,20),(9,90);")
 # a column used ONLY inside one kind of node, behind a pipeline split (take), so that the CTE must select it and the reference must be redirected
 CASES = [
-    ("array", "from a\nselect {id, x, y}\ntake 5\nfilter (x | in [y, 5])\nselect {id, x}\nsort id\n", [(1, 5), (5, 9)]),
-    ("case", "from a\nselect {id, x, y}\ntake 5\nselect {id, c = case [y > 4 => x, true => 0]}\nsort id\n", [(1, 5), (2, 6), (3, 7), (4, 0), (5, 9)]),
-    ("sstring", "from a\nselect {id, x, y}\ntake 5\nselect {id, s = s\"{y} + 1\"}\nsort id\n", [(1, 6), (2, 6), (3, 10), (4, 2), (5, 6)]),
-    ("operator", "from a\nselect {id, x, y}\ntake 5\nselect {id, s = x + y * 2}\nsort id\n", [(1, 15), (2, 16), (3, 25), (4, 10), (5, 19)]),
-    ("window", "from a\nselect {id, x, y}\ntake 5\ngroup y (window rows:-1..0 (sort id | derive {s = sum x}))\nselect {id, s}\nsort id\n", [(1, 5), (2, 11), (3, 7), (4, 8), (5, 15)]),
-    ("join filter", "from a\nselect {id, x, y}\ntake 3\njoin b (b.id == a.id && b.w > a.y)\nselect {a.id, b.w}\nsort id\n", [(1, 10), (2, 20)]),
-    ("sort in take", "from a\nselect {id, x, y}\ntake 5\nsort {-y, id}\ntake 2\nselect {id}\n", [(3,), (1,)]),
-    ("aggregate", "from a\nselect {id, x, y}\ntake 5\ngroup y (aggregate {n = count this, s = sum x})\nsort y\n", [(1, 1, 8), (5, 3, 20), (9, 1, 7)]),
+    ("array", "from a\nselect {id, x, y}\nsort id\ntake 5\nfilter (x | in [y, 5])\nselect {id, x}\nsort id\n", [(1, 5)]),
+    ("case", "from a\nselect {id, x, y}\nsort id\ntake 5\nselect {id, c = case [y > 4 => x, true => 0]}\nsort id\n", [(1, 5), (2, 6), (3, 7), (4, 0), (5, 9)]),
+    ("sstring", "from a\nselect {id, x, y}\nsort id\ntake 5\nselect {id, s = s\"{y} + 1\"}\nsort id\n", [(1, 6), (2, 6), (3, 10), (4, 2), (5, 6)]),
+    ("operator", "from a\nselect {id, x, y}\nsort id\ntake 5\nselect {id, s = x + y * 2}\nsort id\n", [(1, 15), (2, 16), (3, 25), (4, 10), (5, 19)]),
+    ("window", "from a\nselect {id, x, y}\nsort id\ntake 5\ngroup y (window rows:-1..0 (sort id | derive {s = sum x}))\nselect {id, s}\nsort id\n", [(1, 5), (2, 11), (3, 7), (4, 8), (5, 15)]),
+    ("join filter", "from a\nselect {id, x, y}\nsort id\ntake 3\njoin b (b.id == a.id && b.w > a.y)\nselect {a.id, b.w}\nsort id\n", [(1, 10), (2, 20)]),
+    ("sort in take", "from a\nselect {id, x, y}\nsort id\ntake 5\nsort {-y, id}\ntake 2\nselect {id}\n", [(3,), (1,)]),
+    ("aggregate", "from a\nselect {id, x, y}\nsort id\ntake 5\ngroup y (aggregate {n = count this, s = sum x})\nsort y\n", [(1, 1, 8), (5, 3, 20), (9, 1, 7)]),
 ]
 
 
